@@ -64,8 +64,6 @@ func controllingTypes(fn *ssa.Function, b *ssa.BasicBlock) []string {
 func boolCombiners(fn *ssa.Function) (map[string]string, map[*ssa.Phi]bool) {
 	ops := map[string]string{}
 	sites := map[*ssa.Phi]bool{}
-	isNode := func(t string) bool { return t == "*AndExpression" || t == "*OrExpression" }
-	other := map[string]string{"*AndExpression": "*OrExpression", "*OrExpression": "*AndExpression"}
 	kindOf := func(ph *ssa.Phi) string {
 		if b, ok := ph.Type().Underlying().(*types.Basic); !ok || b.Kind() != types.Bool || len(ph.Edges) != 2 {
 			return ""
@@ -88,84 +86,7 @@ func boolCombiners(fn *ssa.Function) (map[string]string, map[*ssa.Phi]bool) {
 		}
 		return kind
 	}
-	// the types selecting block b of fn: enclosing type cases, or a dominating test of a flag / type assertion
-	var selecting func(b *ssa.BasicBlock) []string
-	selecting = func(b *ssa.BasicBlock) []string {
-		var out []string
-		for _, t := range controllingTypes(fn, b) {
-			if isNode(t) {
-				out = append(out, t)
-			}
-		}
-		if len(out) > 0 {
-			return out
-		}
-		for d := b; d != nil; d = d.Idom() {
-			idom := d.Idom()
-			if idom == nil || len(d.Preds) != 1 || d.Preds[0] != idom {
-				continue
-			}
-			ifi, ok := idom.Instrs[len(idom.Instrs)-1].(*ssa.If)
-			if !ok {
-				continue
-			}
-			onTrue := idom.Succs[0] == d
-			switch c := ifi.Cond.(type) {
-			case *ssa.Phi: // a flag assigned constants under the type cases
-				var hit, miss []string
-				unknown := 0
-				for i, e := range c.Edges {
-					k, ok := e.(*ssa.Const)
-					if !ok || k.Value == nil {
-						return nil
-					}
-					var ts []string
-					for _, t := range controllingTypes(fn, c.Block().Preds[i]) {
-						if isNode(t) {
-							ts = append(ts, t)
-						}
-					}
-					if len(ts) == 0 {
-						unknown++
-					}
-					if (k.Value.ExactString() == "true") == onTrue {
-						hit = append(hit, ts...)
-						if len(ts) == 0 {
-							hit = append(hit, "?")
-						}
-					} else {
-						miss = append(miss, ts...)
-					}
-				}
-				// a default value of the flag stands for the node type no case names
-				if unknown == 1 && len(hit)+len(miss) == 1+len(c.Edges)-1 {
-					for i, t := range hit {
-						if t == "?" && len(miss) == 1 {
-							hit[i] = other[miss[0]]
-						}
-					}
-				}
-				var res []string
-				for _, t := range hit {
-					if isNode(t) {
-						res = append(res, t)
-					}
-				}
-				return res
-			case *ssa.Extract: // v, ok := expr.(*AndExpression) tested directly
-				if ta, ok := c.Tuple.(*ssa.TypeAssert); ok && c.Index == 1 {
-					t := typeName(ta.AssertedType)
-					if isNode(t) {
-						if onTrue {
-							return []string{t}
-						}
-						return []string{other[t]}
-					}
-				}
-			}
-		}
-		return nil
-	}
+	selecting := func(b *ssa.BasicBlock) []string { return selectingTypes(fn, b) }
 	for _, f := range append([]*ssa.Function{fn}, fn.AnonFuncs...) {
 		core.Instrs(f, func(in ssa.Instruction) {
 			ph, ok := in.(*ssa.Phi)
@@ -213,6 +134,88 @@ func boolCombiners(fn *ssa.Function) (map[string]string, map[*ssa.Phi]bool) {
 		})
 	}
 	return ops, sites
+}
+
+// selectingTypes: the And/Or node types under which block b of fn runs: enclosing type cases, or a dominating test of a
+// flag assigned under the type cases, or of a type assertion.
+func selectingTypes(fn *ssa.Function, b *ssa.BasicBlock) []string {
+	isNode := func(t string) bool { return t == "*AndExpression" || t == "*OrExpression" }
+	other := map[string]string{"*AndExpression": "*OrExpression", "*OrExpression": "*AndExpression"}
+
+	var out []string
+	for _, t := range controllingTypes(fn, b) {
+		if isNode(t) {
+			out = append(out, t)
+		}
+	}
+	if len(out) > 0 {
+		return out
+	}
+	for d := b; d != nil; d = d.Idom() {
+		idom := d.Idom()
+		if idom == nil || len(d.Preds) != 1 || d.Preds[0] != idom {
+			continue
+		}
+		ifi, ok := idom.Instrs[len(idom.Instrs)-1].(*ssa.If)
+		if !ok {
+			continue
+		}
+		onTrue := idom.Succs[0] == d
+		switch c := ifi.Cond.(type) {
+		case *ssa.Phi: // a flag assigned constants under the type cases
+			var hit, miss []string
+			unknown := 0
+			for i, e := range c.Edges {
+				k, ok := e.(*ssa.Const)
+				if !ok || k.Value == nil {
+					return nil
+				}
+				var ts []string
+				for _, t := range controllingTypes(fn, c.Block().Preds[i]) {
+					if isNode(t) {
+						ts = append(ts, t)
+					}
+				}
+				if len(ts) == 0 {
+					unknown++
+				}
+				if (k.Value.ExactString() == "true") == onTrue {
+					hit = append(hit, ts...)
+					if len(ts) == 0 {
+						hit = append(hit, "?")
+					}
+				} else {
+					miss = append(miss, ts...)
+				}
+			}
+			// a default value of the flag stands for the node type no case names
+			if unknown == 1 && len(hit)+len(miss) == 1+len(c.Edges)-1 {
+				for i, t := range hit {
+					if t == "?" && len(miss) == 1 {
+						hit[i] = other[miss[0]]
+					}
+				}
+			}
+			var res []string
+			for _, t := range hit {
+				if isNode(t) {
+					res = append(res, t)
+				}
+			}
+			return res
+		case *ssa.Extract: // v, ok := expr.(*AndExpression) tested directly
+			if ta, ok := c.Tuple.(*ssa.TypeAssert); ok && c.Index == 1 {
+				t := typeName(ta.AssertedType)
+				if isNode(t) {
+					if onTrue {
+						return []string{t}
+					}
+					return []string{other[t]}
+				}
+			}
+		}
+	}
+	return nil
 }
 
 func typeName(t types.Type) string {
@@ -274,10 +277,8 @@ func runC15(p *core.Prog, r *core.Report) {
 			if c.Name() != "And" && c.Name() != "Or" && c.Name() != "AndNot" && c.Name() != "Xor" {
 				return
 			}
-			for _, t := range controllingTypes(bm, in.Block()) {
-				if t == "*AndExpression" || t == "*OrExpression" {
-					bmOps[t] = c.Name()
-				}
+			for _, t := range selectingTypes(bm, in.Block()) {
+				bmOps[t] = c.Name()
 			}
 		})
 		r.Check(bmOps["*AndExpression"] == "And", "C15.R1", "bitmap/AND", "an AND node intersects the children's bitmaps (Bitmap.And)", "combiner is "+bmOps["*AndExpression"], p.Pos(bm.Pos()))
@@ -475,7 +476,7 @@ func runC15(p *core.Prog, r *core.Report) {
 	r.Guard("C15.R5", "optimizer", "flatten like into like", func() {
 		fn := p.Func(pkgSqe, "optimizeExpression")
 		var tas []string
-		for _, f := range core.WithClosures(fn) {
+		for _, f := range core.Family(fn, 1) { // the optimiser, its closures and the helper that flattens the children
 			core.Instrs(f, func(in ssa.Instruction) {
 				if ta, ok := in.(*ssa.TypeAssert); ok && ta.CommaOk {
 					tas = append(tas, typeName(ta.AssertedType))
@@ -550,10 +551,36 @@ func runC15(p *core.Prog, r *core.Report) {
 			// the keys evaluated: a message allocated in this call ...
 			var keysObj ssa.Value
 			okFresh := false
+			fn, c := fn, c // (re-bound below when the decoding is delegated)
+			bytesParam := ssa.Value(fn.Params[1])
 			for _, nk := range core.FindInstrs(fn, core.IsCallTo(p.FuncObj(pkgSqe, "NewFromIndexKeys"))) {
 				arg := nk.(ssa.CallInstruction).Common().Args[0]
 				if al, ok := arg.(*ssa.Alloc); ok {
 					keysObj, okFresh = al, true
+				} else if hc, ok := arg.(*ssa.Call); ok {
+					// ... or in a helper of the package that is handed the block's bytes and returns the message it decoded
+					h := core.StaticFn(hc.Common())
+					if h != nil && h.Blocks != nil && h.Pkg == fn.Pkg && h.Parent() == nil {
+						var ret *ssa.Return
+						nRet := 0
+						core.Instrs(h, func(x ssa.Instruction) {
+							if rt, ok := x.(*ssa.Return); ok {
+								ret = rt
+								nRet++
+							}
+						})
+						for i, a := range hc.Call.Args {
+							if core.SkipConv(a) == bytesParam && i < len(h.Params) && nRet == 1 && len(ret.Results) == 1 {
+								if al, ok := core.ReturnValues(ret)[0].(*ssa.Alloc); ok {
+									keysObj, okFresh = al, true
+									fn, c, bytesParam = h, ret, h.Params[i]
+								}
+							}
+						}
+					}
+					if !okFresh {
+						keysObj = arg
+					}
 				} else {
 					keysObj = arg
 				}
@@ -567,7 +594,7 @@ func runC15(p *core.Prog, r *core.Report) {
 				args := in.(ssa.CallInstruction).Common().Args
 				fromParam, intoKeys := false, false
 				for _, a := range args {
-					if core.SkipConv(a) == ssa.Value(fn.Params[1]) {
+					if core.SkipConv(a) == bytesParam {
 						fromParam = true
 					}
 					if mi, ok := a.(*ssa.MakeInterface); ok && mi.X == keysObj {
